@@ -831,8 +831,20 @@ if __name__ == "__main__":
                      "first period_start - 1 day), and every selected field present summarised as 'sum of itself' "
                      "(all of DEFAULT_INTERPOLATION_FIELDS: defaultFields_rules; summarize_premium=True)",
                      "theorem hypotheses: value dicts have distinct keys (Python dicts); policyYear_conserves needs the "
-                     "share-table contract (Spec.C18.policyCovered: every accident period's normalised row sums to 1, "
-                     "evaluated by the driver on every case) and one shape per field within a slice (UniformShapes)",
+                     "share-table contract (Spec.C18.policyCovered, evaluated by the driver on every case; by "
+                     "policyYear_covered_iff it holds iff every accident period is reached by a policy year of "
+                     "policy_years_covered: some month between its first written month and its last written month + "
+                     "policy_length_months starts inside the period - with continuous issuance every first-of-month period "
+                     "start inside a policy year is reached, policyYear_reached_of_contains; that policy_years_covered tiles "
+                     "the accident periods is not proved) and one shape per field within a slice (UniformShapes; the code "
+                     "does not check it, numpy would broadcast)",
+                     "disaggregation carries only the SELECTED fields (default DEFAULT_INTERPOLATION_FIELDS) of the cells "
+                     "whose first sub-period is over at their evaluation date; other fields and unobservable cells are "
+                     "dropped (disagg_drops_unselected, disagg_drops_unobservable); aggregate_disagg reproduces exactly that "
+                     "restriction of the input",
+                     "currency_spec_bridge assumes no two cells land on one position after conversion; twin slices that "
+                     "differ only in the currency give a triangle with duplicate cells (currency_twin_slices; covered by "
+                     "currency_spec, which has no such hypothesis, and by the Spec evaluated on the implementation's output)",
                      "NaN-free values; scalars and 1-d arrays (rank >= 2 arrays and empty arrays are outside the model)",
                      "list (or absent) period weights (dict weights make the code raise, DESIGN §6)",
                      "disaggregate_experience on incremental triangles is not modelled (to_cumulative/to_incremental wrapper: C04)",
